@@ -34,7 +34,7 @@ ASSUMPTIONS = ["aliasing is demanded only of the operations the statement lists 
 V_TENSOR = ["splitUniform", "splitNonUniform", "splitEqual", "splitUnEqual", "truediv", "floordiv", "swizzle", "swap",
             "flatten", "merge", "unflatten", "flatten_flattened", "updateCoords", "updatePayloads", "deepcopy"]
 V_FIBER = ["f_splitUniform", "f_splitEqual", "f_splitNonUniform", "f_splitUnEqual", "f_swap", "f_flatten", "f_merge",
-           "f_unflatten", "f_add_fiber", "f_mul_fiber", "f_add_fiber", "f_mul_fiber", "f_add_scalar", "f_mul_scalar", "f_copy", "f_copy_noowner",
+           "f_unflatten", "f_add_fiber", "f_mul_fiber", "f_add_fiber", "f_add_fiber", "f_add_scalar", "f_mul_scalar", "f_copy", "f_copy_noowner",
            "f_deepcopy", "f_truediv", "f_floordiv", "f_fromFiber"]
 R_OPS = ["getPayload", "getPosition", "iterators", "coiterate", "eq", "queries", "strings", "uncompress", "dump",
          "fiber2dict", "format", "image", "image"]
@@ -52,7 +52,7 @@ def cases(draw):
     if op == "image":
         d = draw(st.sampled_from([1, 2, 3, 4, 4]))      # (the renderer has one code path per dimensionality)
     if op in ("f_add_fiber", "f_mul_fiber"):
-        d = draw(st.sampled_from([1, 2, 2, 3, 3]))      # (with fibers below the operand + and * recurse)
+        d = draw(st.sampled_from([1, 2, 2, 3, 2]))      # (with fibers below the operand + and * recurse)
     if level == "unowned":
         d = min(d, 2)
     c = {"family": fam, "level": level, "op": op,
@@ -62,6 +62,7 @@ def cases(draw):
          "style": draw(st.sampled_from(["tuple", "pair"])),
          "mstyle": draw(st.sampled_from(["absolute", "relative"])),
          "fmtU": draw(st.booleans()),
+         "alevel": draw(st.sampled_from([1, 2, 0, 1])),      # fiber arithmetic: 0 = at a leaf fiber, else interior
          "val": draw(st.sampled_from([3, 5, -2, 7])),
          "other": draw(st.lists(st.tuples(st.integers(0, 5), st.sampled_from([1, 2, 4, -1, 0])), max_size=4))}
     shape = [draw(st.integers(1, 5)) for _ in range(d)]
@@ -280,7 +281,8 @@ def check(case, rec):
         # the left operand is a fiber at a drawn level of the tree (with fibers below it, + and * recurse),
         # the right operand an unowned tree of the same depth
         lf, lvl = root, 0
-        stop = d - 1 if k in ("add_scalar", "mul_scalar") or sel[2] % 3 == 0 else sel[2] % d
+        alevel = case.get("alevel", 0)
+        stop = d - 1 if k in ("add_scalar", "mul_scalar") or alevel == 0 or d == 1 else (alevel - 1) % (d - 1)
         while lvl < stop:
             if not lf.payloads:
                 return
@@ -300,7 +302,13 @@ def check(case, rec):
                     c2 = (c_ + 1) % shape[d - dd] if top else c_
                     out.append([c2, (ch + 1 if ch + 1 != 0 else 2) if dd == 1 else other_tree(ch, dd - 1, False)])
                 return sorted(out, key=lambda x: x[0])
-            g = build.nested_fiber(other_tree(observe.tree_of(lf), d - lvl), d - lvl, shape[lvl:], default)
+            gtree = other_tree(observe.tree_of(lf), d - lvl)
+            if d - lvl <= 2:
+                g = build.nested_fiber(gtree, d - lvl, shape[lvl:], default)
+            else:
+                # (an unowned tree only knows the default of the next level: three levels need a tensor)
+                g = build.build_tensor({"rank_ids": ids_[lvl:], "shape": shape[lvl:], "default": default,
+                                        "tree": gtree}, "ref").getRoot()
             rec.cls("arith-on-interior-fiber")
         gs = State(g)
         if k == "add_fiber":
